@@ -126,6 +126,10 @@ def rule_rowcol(ctx: Ctx, rels: List[str]) -> None:
             for n in ast.walk(fn):
                 if isinstance(n, ast.Assign) and isinstance(n.value, ast.Attribute) and n.value.attr in PHASE_ATTRS:
                     phase_alias |= {t.id for t in n.targets if isinstance(t, ast.Name)}
+                # `for vector in (tableau.phase, tableau.iphase):` — the loop variable is each phase vector in turn
+                if isinstance(n, ast.For) and isinstance(n.target, ast.Name) and isinstance(n.iter, (ast.Tuple, ast.List)) and n.iter.elts \
+                        and all(isinstance(e, ast.Attribute) and e.attr in PHASE_ATTRS for e in n.iter.elts):
+                    phase_alias.add(n.target.id)
             for c in calls_in(fn):
                 a = call_attr(c)
                 if a in COL_FUNCS:
@@ -162,6 +166,17 @@ def rule_rowcol(ctx: Ctx, rels: List[str]) -> None:
                         row |= {t.id for t in n.targets if isinstance(t, ast.Name)}
             size_names = {p for p in _names(fn) if p in ("n_qubits", "n", "n_qubit")}
             col_only = col - row - size_names
+            # locals computed from column-only names alone (index lists such as [q, q + n]) are column-kind as well
+            changed = True
+            while changed:
+                changed = False
+                for n in ast.walk(fn):
+                    if isinstance(n, ast.Assign) and len(n.targets) == 1 and isinstance(n.targets[0], ast.Name) and n.targets[0].id not in col_only \
+                            and n.targets[0].id not in row and not isinstance(n.value, ast.Call):
+                        used_ = _names(n.value)
+                        if used_ & col_only and used_ <= (col_only | size_names):
+                            col_only = col_only | {n.targets[0].id}
+                            changed = True
             bad: Dict[str, List[ast.AST]] = {}
             for n in ast.walk(fn):
                 if isinstance(n, ast.Subscript):
@@ -655,6 +670,21 @@ def rule_outcome_used(ctx: Ctx) -> None:
                                  f"only on some paths (under a condition on the kind of outcome): when the outcome was random and another generator "
                                  f"still carries Z on the removed qubit, that generator loses the eigenvalue (GHZ, remove one qubit with outcome 1: "
                                  f"|00> instead of |11>)", func=fn.name, construct=f"{fn.name}: outcome reaches the signs only conditionally")
+                elif reads and fn.name.startswith("reset"):
+                    # measure-and-reset: the state of the *other* qubits after the measurement depends on the outcome, so whatever the
+                    # function does next must look at it on every path (a forced outcome that differs from the intended state included)
+                    def reads_outcome(node, nm=name, defn=st):
+                        return node is not defn and any(isinstance(x, ast.Name) and x.id == nm and isinstance(x.ctx, ast.Load) for x in ast.walk(node))
+                    from .. import flow as _flow
+                    if _flow.must_pass(fn.body, reads_outcome):
+                        ctx.ok("measure.outcome-used", m, st, what=f"{fn.name}: the outcome is consulted on every path")
+                    else:
+                        ctx.fail("measure.outcome-used", m, st,
+                                 f"{fn.name} has a path from the measurement to a return that never looks at the outcome `{name}`: when the outcome "
+                                 f"was random the sign of the new stabilizer is simply overwritten with the intended state, so the other qubits are "
+                                 f"left in the branch belonging to that state instead of the branch of the outcome that was measured (Bell pair, "
+                                 f"forced outcome 1, reset to 0: |00> instead of |01>)", func=fn.name,
+                                 construct=f"{fn.name}: a path ignores the measurement outcome")
                 elif reads:
                     ctx.ok("measure.outcome-used", m, st, what=f"{fn.name} consumes the outcome")
                 else:
